@@ -86,6 +86,16 @@ TARGETS = [
     ("PIDWrapper", "update", "g_pidw_update"),
     ("ProductStream", "get", "g_prod_get"),
     ("Expirer", "get", "g_expirer_get"),
+    # constructors (the initial state of the model) and the getters that return the cached value
+    ("PIDControllerStream", "new", "g_pid_new"), ("CommandPID", "new", "g_cpid_new"), ("EWMAStream", "new", "g_ewma_new"),
+    ("MovingAverageStream", "new", "g_ma_new"), ("DerivativeStream", "new", "g_deriv_new"), ("IntegralStream", "new", "g_integ_new"),
+    ("AccelerationToState", "new", "g_a2s_new"), ("VelocityToState", "new", "g_v2s_new"), ("PositionToState", "new", "g_p2s_new"),
+    ("FloatToQuantity", "new", "g_f2q_new"), ("QuantityToFloat", "new", "g_q2f_new"), ("FreezeStream", "new", "g_freeze_new"),
+    ("GetterFromHistory", "new_no_delta", "g_gfh_new_no_delta"), ("GetterFromHistory", "new_custom_delta", "g_gfh_new_custom_delta"),
+    ("ConstantGetter", "new", "g_cg_new"), ("Terminal", "new_raw", "g_term_new_raw"),
+    ("EWMAStream", "get", "g_ewma_get"), ("EWMAStream<Quantity>", "get", "g_ewma_q_get"),
+    ("MovingAverageStream", "get", "g_ma_get"), ("MovingAverageStream<Quantity>", "get", "g_ma_q_get"),
+    ("DerivativeStream", "get", "g_deriv_get"), ("IntegralStream", "get", "g_integ_get"),
 ]
 
 HDR = """(* GENERATED by tools/gen_streams.py from %s - do not edit *)
@@ -97,6 +107,9 @@ Local Open Scope Z_scope.
 Section GenStreams.
 Context {F : Type} {NF : Num F}.
 """
+
+
+USED = []          # (Coq name, the translated function's entry, the entries inlined into it): read by tools/inventory.py
 
 
 def load(repo):
@@ -113,6 +126,7 @@ def main(repo, outdir, consts):
     os.makedirs(outdir, exist_ok=True)
     out = [HDR % ", ".join(FILES)]
     info = []
+    del USED[:]
     for key, fn, name in TARGETS:
         self_key = key
         if "@" in key:            # a trait's default method, run on a given implementor
@@ -154,6 +168,7 @@ def main(repo, outdir, consts):
             raise ParseError("%s::%s: %s" % (key, fn, ex))
         out.append("Definition %s (c : cfg) : @mexpr F :=\n  %s.\n" % (name, term))
         info.append((key, fn, name, sorted(em.inputs), f["params"]))
+        USED.append((name, f, list(em.used)))
     out.append("End GenStreams.\n")
     p = os.path.join(outdir, "GenStreams.v")
     txt = "\n".join(out)
